@@ -14,8 +14,8 @@
 (* disagreement between cmake and the rule book is a fault of the spec     *)
 (* (machinery error), never a violation; a target with type "skip" in w   *)
 (* is not compared (ALIAS targets have no properties of their own).        *)
-(* The verdict names the first wrong prefix, the component and the shape   *)
-(* of the command that made it wrong.                                      *)
+(* The verdict names the first wrong prefix, the component and the rule of *)
+(* the manual at stake for the command that made it wrong.                 *)
 (***************************************************************************)
 EXTENDS CMakeFold, TLC, Json, IOUtils
 
@@ -55,17 +55,34 @@ ValueArgs(c) == IF c.cmd = "set"
                          n == Len(c.args) - pi - 1
                      IN IF pi = 0 \/ n <= 0 THEN "/0" ELSE IF n = 1 THEN "/1" ELSE "/n"
                 ELSE ""
-Shape(c) == c.cmd \o "(" \o (IF LeadingCommand(c) THEN "leading-command" ELSE "") \o KwString(c.args, 1) \o ")" \o ValueArgs(c)
+Shape0(c) == c.cmd \o "(" \o (IF LeadingCommand(c) THEN "leading-command" ELSE "") \o KwString(c.args, 1) \o ")" \o ValueArgs(c)
 
-Verdict(c, clause, k, what, exp, got) ==
-    [id |-> c.id, clause |-> clause, k |-> k, what |-> what, shape |-> IF k >= 1 /\ k <= Len(CmdsOf(c)) THEN Shape(CmdsOf(c)[k]) ELSE "",
+\* the rule of the manual that is at stake when command c made component `what` (of target t, "" if none) wrong;
+\* falls back to the shape of the command
+Rule(c, clause, what, t) ==
+    IF clause \in {"Property", "Dependencies", "TargetKind"} /\ t # "" /\ t \notin Subjects(c)
+        THEN "changes-a-target-it-does-not-name"
+    ELSE IF c.cmd = "set" /\ ~HasArg(c.args, "CACHE") /\ ValueArgs(c) = "/n" THEN "set-with-several-values"
+    ELSE IF c.cmd = "set" /\ HasArg(c.args, "CACHE") /\ ~HasArg(c.args, "FORCE") THEN "set-cache-without-force"
+    ELSE IF c.cmd = "set_property" /\ HasArg(c.args, "APPEND_STRING") THEN "set_property-append_string"
+    ELSE IF c.cmd = "set_property" /\ ValueArgs(c) = "/0" THEN "set_property-without-values"
+    ELSE IF c.cmd = "target_include_directories" /\ HasArg(c.args, "AFTER") THEN "include_directories-after-keyword"
+    ELSE IF c.cmd \in TargetCommands /\ HasArg(c.args, "BEFORE") THEN c.cmd \o "-before"
+    ELSE IF c.cmd = "target_link_libraries" /\ HasArg(c.args, "LINK_PUBLIC") /\ what = "LINK_LIBRARIES" THEN "link_libraries-link_public"
+    ELSE IF LeadingCommand(c) THEN "custom_target-leading-command"
+    ELSE IF c.cmd = "add_custom_target" /\ HasArg(c.args, "SOURCES") THEN "custom_target-sources-keyword"
+    ELSE what \o "@" \o Shape0(c)
+Verdict(c, clause, k, what, t, exp, got) ==
+    [id |-> c.id, clause |-> clause, k |-> k, what |-> what, target |-> t,
+     rule |-> IF k >= 1 /\ k <= Len(CmdsOf(c)) THEN Rule(CmdsOf(c)[k], clause, what, t) ELSE "",
      expected |-> exp, got |-> got]
-Good(c) == Verdict(c, "ok", 0, "", <<>>, <<>>)
+Good(c) == Verdict(c, "ok", 0, "", "", <<>>, <<>>)
 
 \* compare one observation with the state the rule book prescribes; returns <<>> or <<[clause, what, exp, got]>>
 Diff(S, o, withKinds) ==
     LET ot == PairsToFun([j \in 1..Len(o.tg) |-> [n |-> o.tg[j].n, v |-> o.tg[j]]])
-        Bad(cl, w, e, g) == <<[clause |-> cl, what |-> w, exp |-> e, got |-> g]>>
+        BadT(cl, w, t, e, g) == <<[clause |-> cl, what |-> w, t |-> t, exp |-> e, got |-> g]>>
+        Bad(cl, w, e, g) == BadT(cl, w, "", e, g)
     IN IF withKinds /\ o.errs # S.errs THEN Bad("Errors", "count", <<S.errs>>, <<o.errs>>)
        ELSE IF \E j \in 1..Len(o.vars) : Lookup(S, o.vars[j].n) # o.vars[j].v
             THEN LET j == CHOOSE j \in 1..Len(o.vars) : Lookup(S, o.vars[j].n) # o.vars[j].v
@@ -76,12 +93,12 @@ Diff(S, o, withKinds) ==
             THEN LET t == CHOOSE t \in DOMAIN ot : ot[t].type # "skip" /\ ~SameFun(PairsToFun(ot[t].props), S.tg[t].props)
                      op == PairsToFun(ot[t].props)
                      p == CHOOSE p \in DOMAIN op \cup DOMAIN S.tg[t].props : Get(op, p) # Get(S.tg[t].props, p)
-                 IN Bad("Property", p, Get(S.tg[t].props, p), Get(op, p))
+                 IN BadT("Property", p, t, Get(S.tg[t].props, p), Get(op, p))
        ELSE IF withKinds /\ \E t \in DOMAIN ot : ot[t].type # S.tg[t].type \/ ot[t].imp # S.tg[t].imp
             THEN LET t == CHOOSE t \in DOMAIN ot : ot[t].type # S.tg[t].type \/ ot[t].imp # S.tg[t].imp
-                 IN Bad("TargetKind", S.tg[t].type, <<S.tg[t].type>>, <<ot[t].type>>)
+                 IN BadT("TargetKind", S.tg[t].type, t, <<S.tg[t].type>>, <<ot[t].type>>)
        ELSE IF withKinds /\ \E t \in DOMAIN ot : ot[t].deps # S.tg[t].deps
-            THEN LET t == CHOOSE t \in DOMAIN ot : ot[t].deps # S.tg[t].deps IN Bad("Dependencies", S.tg[t].type, S.tg[t].deps, ot[t].deps)
+            THEN LET t == CHOOSE t \in DOMAIN ot : ot[t].deps # S.tg[t].deps IN BadT("Dependencies", S.tg[t].type, t, S.tg[t].deps, ot[t].deps)
        ELSE IF withKinds /\ \E t \in DOMAIN ot : ot[t].cmds # S.tg[t].cmds
             THEN LET t == CHOOSE t \in DOMAIN ot : ot[t].cmds # S.tg[t].cmds IN Bad("CustomCommands", "", Flat(S.tg[t].cmds), Flat(ot[t].cmds))
        ELSE IF withKinds /\ \E t \in DOMAIN ot : ot[t].wd # S.tg[t].wd
@@ -93,14 +110,14 @@ JudgeObs(c, j) ==
     IF j > Len(c.obs) THEN Good(c)
     ELSE LET o == c.obs[j]
              d == Diff(Fold(InitState, SubSeq(CmdsOf(c), 1, o.k)), o, TRUE)
-         IN IF o.x # "" THEN Verdict(c, "NoCrash", o.k, o.x, <<>>, <<>>)
-            ELSE IF d # <<>> THEN Verdict(c, d[1].clause, o.k, d[1].what, d[1].exp, d[1].got)
+         IN IF o.x # "" THEN Verdict(c, "NoCrash", o.k, o.x, "", <<>>, <<>>)
+            ELSE IF d # <<>> THEN Verdict(c, d[1].clause, o.k, d[1].what, d[1].t, d[1].exp, d[1].got)
             ELSE JudgeObs(c, j + 1)
 
 Judge(c) ==
     LET final == Fold(InitState, CmdsOf(c))
         wd == IF c.w = <<>> THEN <<>> ELSE Diff(final, c.w[1], FALSE)
-    IN IF wd # <<>> THEN Verdict(c, "WitnessDisagreesWithSpec", Len(CmdsOf(c)), wd[1].clause \o ":" \o wd[1].what, wd[1].exp, wd[1].got)
+    IN IF wd # <<>> THEN Verdict(c, "WitnessDisagreesWithSpec", Len(CmdsOf(c)), wd[1].clause \o ":" \o wd[1].what, wd[1].t, wd[1].exp, wd[1].got)
        ELSE JudgeObs(c, 1)
 
 Init == i \in 1..Len(Cases) /\ done = FALSE
